@@ -902,9 +902,9 @@ func main() {
 	ignoreCases(w, r.Fork(), f.N(150, 5000))
 	cfCases(w, r.Fork(), f.N(400, 40000))
 	slabCases(w, r.Fork(), f.N(200, 10000))
-	docsCases(w, r.Fork(), f.N(12, 500), tmp)
+	docsCases(w, r.Fork(), f.N(12, 300), tmp)
 	rr := r.Fork()
-	for i := 0; i < f.N(6, 200); i++ {
+	for i := 0; i < f.N(6, 120); i++ {
 		runRepo(w, genRepo(rr.Fork()), tmp)
 	}
 }
